@@ -20,10 +20,22 @@ CLAIMED = {
    text="For each seeded scenario (history, valid victim picture, valid continuation) the faults are enumerated exhaustively: a hard I/O error at every source-read index (chained retries on the same reader), EINTR on every other read, every split point of the victim across two deliveries, one semantic poison per parsing depth (header, macroblock header, block data, prediction) and a sample of bit flips. After every failed call the decoder state must be bit-identical, the reader must still be at the start of the picture, the retry must equal a clean decode and the continuation must equal a twin decoder that never saw a failure.",
    note="Twin oracle: the same decoder on both sides, so it decides atomicity/consistency, not absolute correctness. Splits the decoder legitimately accepts as an early-ended picture are counted, not judged.",
    technique="deterministic simulation: exhaustive fault-position enumeration per seeded scenario against a fault-free twin"),
+ "C13": dict(level="exploration", design="4.5",
+   text="Pipeline invariant evaluated after every accepted picture of seeded fault-injecting decoder sessions (valid, truncated-but-accepted and corrupted-but-accepted pictures, size changes) and of a width x height x quantizer sweep: plane sizes and chroma row length as documented, deblock of all three planes with the tabulated strength and yuv420_to_rgba complete without panic (preconditions live as debug_assert) and yield 4*w*h bytes. The weakest fit of the claimed properties: its failure cases are reached by the size swarm and header corruption, not by schedules.",
+   note="Only pictures with width, height >= 1 and quantizer 1..31 are judged. A panic inside the decoder itself is C01's verdict.",
+   technique="deterministic simulation: cross-crate pipeline invariant checked after every accepted picture of seeded fault-injecting sessions plus a size sweep"),
  "C14": dict(level="exploration", design="4.6",
    text="Seeded operation histories over the real H263Reader (peek/read/signed/skip at widths 0..66 into seven integer types, read_vlc over generated tables, start-code recognition, commit, nested transactions / unions / look-aheads ending Ok/Err/None) on a source that delivers bytes late and injects EINTR and hard I/O errors, compared operation by operation with a bit-vector model; plus a systematic sweep of every start phase x operation x width.",
    note="Trusted: model R (a bit vector and a position). read_vlc always runs inside a transaction (its position after an error is documented as undefined). Start-code oracle is exactly as loose as the statement.",
    technique="deterministic simulation: seeded reader operation histories with late delivery and I/O faults against a bit-vector reference model"),
+ "C15": dict(level="exploration", design="4.7",
+   text="Differential twin over seeded streams: decoder A reads 1-6 concatenated valid pictures (any types, sizes changing at intra pictures, every end bit phase, fewer than eight zero pad bits) from one reader, delivered whole / at boundaries / with part of the following pictures, in chunks, with EINTR; twin B uses one reader per picture. Every call must agree in result, header and planes; calls on the exhausted stream must fail and change nothing.",
+   note="Twin oracle: the per-picture reader defines what a picture decodes to. Bytes are completely delivered before the call that needs them (partial availability is C05/C03).",
+   technique="deterministic simulation: seeded multi-picture streams under varied delivery, differential twin (one reader vs one reader per picture)"),
+ "C17": dict(level="exploration", design="4.8",
+   text="Seeded worlds of 2-4 caller threads owning 3-8 decoder instances run under a baton scheduler owned by the simulator (one thread at a time, pre-emption at every source read and call boundary, successor from the plan's schedule, so interleavings replay exactly). Replicas must agree; every instance's history digest must equal the same history run alone; a sample of runs is re-executed in two further groups of fresh processes and must give identical digests. The thorough tier adds Miri many-seeds executions of a three-thread scenario (finer interleavings, data-race and UB detection).",
+   note="Interleaving granularity is source reads and call boundaries; finer effects only via the Miri layer. degraded_determinism (baton safety valve) is reported, never a violation.",
+   technique="deterministic simulation: seeded baton thread scheduler interleaving decoder instances at every source read; replica / isolation / cross-process digests; Miri many-seeds"),
 }
 
 NOT_APPLICABLE = {
@@ -38,7 +50,7 @@ NOT_APPLICABLE = {
  "C16": "Pure function of (size, strength) plus a constant table; no state, no I/O, no schedule.",
 }
 
-PENDING = {k: 'check under construction (claimed in DESIGN.md; not yet registered)' for k in ['C13','C15','C17']}  # id -> reason, for properties whose check is still under construction
+PENDING = {}  # id -> reason, for properties whose check is still under construction
 
 def main():
     hooks_commits = subprocess.check_output(["git","-C","/repo","log","--format=%H %s"],text=True).splitlines()
